@@ -13,7 +13,8 @@ from ..runner import Part, Violation
 ID = "C13"
 RULE = ("part 'kinds' (exhaustive): every sequence of <= 3 (quick) / <= 4 (thorough) lines over 15 line kinds "
         "{H, H VN:1.0, H VN:2.0, #, S gfa1, S gfa2, L, C, P, E, F, G, O, U, custom} x version parameter {none, "
-        "gfa1, gfa2} x vlevel {1, 2}, driven incrementally (Gfa() + add_line + process_line_queue) and, when every "
+        "gfa1, gfa2} x vlevel {1, 2}, driven incrementally (Gfa() + add_line + process_line_queue) with strings and "
+        "with gfapy.Line objects and, when every "
         "reference is defined, through Gfa(list); rGFA dialect on the S/L subset. part 'docs': generated valid "
         "documents, pure or with one line of the other version injected, in random orders, via Gfa(list) and "
         "from_file. Oracle (model table): version = parameter, else VN, else implied by the version-specific "
@@ -132,6 +133,28 @@ def prop_kinds(case):
         if outcome == "error":
             raise Violation("valid-rejected", "%s\nVersionError for a document valid as %s" % (ctx, want), want)
         check_result(g, seq, want, ctx)
+    # driver 3: the same lines as gfapy.Line objects (each knows its own version from its syntax)
+    if not rgfa:
+        ctx3 = ctx.replace("(incremental)", "(Line objects)")
+        out3 = None
+        try:
+            g3 = gfapy.Gfa(**kw)
+            for l in lines:
+                g3.add_line(gfapy.Line(l, vlevel=vlevel))
+            g3.process_line_queue()
+            out3 = "ok"
+        except gfapy.VersionError:
+            out3 = "error"
+        except GfapyError as e:
+            raise Violation("other-error", "%s\nraised %s: %s" % (ctx3, type(e).__name__, str(e)[:300]), "instances/" + type(e).__name__)
+        except Exception as e:
+            raise Violation("foreign", "%s\nraised %s: %s" % (ctx3, type(e).__name__, str(e)[:300]), "instances/" + type(e).__name__)
+        if want == "error" and out3 != "error":
+            raise Violation("mixed-accepted", "%s\nmixed/contradicting versions accepted as %s" % (ctx3, g3.version), "instances")
+        if want != "error":
+            if out3 == "error":
+                raise Violation("valid-rejected", "%s\nVersionError for a document valid as %s" % (ctx3, want), "instances/" + want)
+            check_result(g3, seq, want, ctx3)
     # driver 2: Gfa(list), only when all references can be defined
     if segs:
         x, y = segs[0], segs[-1]
